@@ -1,7 +1,7 @@
 from props import LEAN_TB, CORR_TB, TRANS_TB
 
 PROP = dict(
-    lean=["Tcell.Props.C01"], namespaces=["Tcell.Props.C01"], engines=["draw"],
+    lean=["Tcell.Props.C01"], namespaces=["Tcell.Props.C01"], engines=["draw"], classes=["display-", "cursor-", "wide-not-two-columns", "ref-unavailable"],
     trusted_base=[LEAN_TB, CORR_TB, TRANS_TB,
                   "Layer A: abstract terminal Tcell.ATerm (deferred wrap, two-column glyphs, clobbering rules) as the meaning of the draw path's abstract commands",
                   "Layer B (bytes -> abstract commands) is validated, not proved: byte-exact correspondence of the rendered model with the implementation, and the Lean ECMA-48 reference emulator judging the implementation's own bytes",
